@@ -65,10 +65,75 @@ PROPS["C08"] = dict(
     exhaustive_note="single-byte replacements over all header/footer bytes and all truncation points, for every 8th small base",
 )
 
+PROPS["C05"] = dict(
+    level="exploration",
+    technique="truth-table monitor: every dedup answer of the in-memory index, a serialized shard and ShardFileManager histories is judged against the ground-truth xorb contents",
+    rule=("case = shard content (1..25 xorbs, up to 2500 chunks each; prefix-collision groups up to 14, duplicate chunks, optional xorb of >65535 chunks) x layer "
+          "{in-memory, serialized, manager history of add/flush/register-external/consolidate+reopen/keyed-export}; 300+ queries per case of 6 kinds; "
+          "evaluation = one case; non-trivial = at least one hit judged; distinct = (layer, #xorbs bucket, key space, group size, dup, big, hit/partial/collision flags)"),
+    assumptions=["a miss is always allowed (completeness of lookup is not claimed)", "queries are non-empty"],
+    jobs=[
+        Job("shard_dedup", engine="shard_dedup", workers=(8, 16), cases=(30, 3000), time_s=(40, 700), args={"queries": (300, 1500)}, **PURE),
+    ],
+    gates=dict(evaluations=(200, 5000), distinct=(40, 100),
+               counters={"hits": (5000, 500000), "partial_hits": (1000, 100000), "collision_resolved_hits": (1000, 100000), "manager_op_keyed-export": (5, 100), "manager_op_consolidate-reopen": (5, 100)}),
+)
+
+PROPS["C09"] = dict(
+    level="exploration",
+    technique="reference-model monitor: serialized shard vs the record maps it was built from, through seekable / streaming / minimal readers; search_on_sorted_u64s vs exact table",
+    rule=("case = model (0..thousands of file / xorb records, key spaces uniform / clustered / extremes / prefix-collision groups <=7, all flag combinations, empty records) "
+          "serialized and read back: every present key (or 400 sampled) and same-prefix absent keys looked up, all scans, footer totals, size accounting, 3 reader families; "
+          "plus sorted-u64 tables of 0..50000 keys where every present key, its neighbours and extremes are searched; non-trivial = >=2 records / keys; "
+          "distinct = (size buckets, key spaces, flags) resp. (table size bucket, class)"),
+    assumptions=["shards < 4 GiB", "size clause judged on shards built from distinct records"],
+    jobs=[
+        Job("shard_fmt", engine="shard_fmt", workers=(8, 12), cases=(40, 2500), time_s=(40, 700), args={"scale": (4, 40)}, **PURE),
+        Job("shard_search", engine="shard_search", workers=(4, 4), cases=(60, 6000), time_s=(40, 700), args={"max-table": (50000, 200000)}, **PURE),
+    ],
+    gates=dict(evaluations=(400, 20000), distinct=(150, 400),
+               counters={"lookups": (20000, 1000000), "search_queries": (500000, 20000000), "tables_beyond_read_window": (50, 2000)}),
+)
+
+PROPS["C10"] = dict(
+    level="exploration",
+    technique="reference-model monitor: union/difference (in-memory, buffer and file forms) vs set operations on record maps, outputs re-judged by the C09 oracle; consolidation judged by before/after directory scans",
+    rule=("pairs drawn from a universe of full records with per-shard flag subsets (relations identical / empty / disjoint / overlapping; all 4x4 flag pairs; prefix collisions); "
+          "consolidation over directories of 0..40 shards (duplicates, empty shards, leftovers) with thresholds from 'nothing merges' to 'everything merges'; "
+          "non-trivial = >=2 records resp. >=2 shards; distinct = (relation, common-file bucket, flag-pair set, sizes) resp. (before, after, threshold class)"),
+    assumptions=["a file present in both inputs has identical segments / verification / metadata where present"],
+    jobs=[
+        Job("shard_setops", engine="shard_setops", workers=(8, 12), cases=(250, 20000), time_s=(40, 700), **PURE),
+        Job("shard_consolidate", engine="shard_consolidate", workers=(4, 4), cases=(50, 5000), time_s=(40, 700), **PURE),
+    ],
+    gates=dict(evaluations=(1500, 50000), distinct=(200, 1000),
+               counters={"setop_pairs": (1500, 50000), "consolidations": (150, 5000), "consolidations_that_merged": (50, 1000), "flagpair_1_2": (20, 200), "flagpair_2_1": (20, 200)}),
+)
+
+PROPS["C18"] = dict(
+    level="exploration",
+    technique="monitor over keyed exports (independent hmac, byte search for plain hashes, manager answers vs original) and crafted-footer expiry predicates",
+    rule=("case = shard x key (incl. zero key) x 8 include-flag combinations: exported bytes judged for keyed chunk hashes, absence of plain hashes, tables present/absent, file records, "
+          "expiry stamp, and 120 unkeyed manager queries compared with the original shard's answers (exact equality when chunk hashes are unique); "
+          "expiry cases = directories of shards with crafted (creation, expiry) footers x grace buffer, judged with a 5 s margin around now; distinct = flag/zero/unique/size resp. buffer/outcome classes"),
+    assumptions=["secrecy of keyed blake3 itself is not checked", "wall clock only enters through a 5 s margin"],
+    jobs=[
+        Job("shard_keyed", engine="shard_keyed", workers=(8, 12), cases=(40, 3000), time_s=(40, 700), **PURE),
+        Job("shard_expiry", engine="shard_expiry", workers=(4, 4), cases=(100, 10000), time_s=(40, 700), **PURE),
+    ],
+    gates=dict(evaluations=(500, 20000), distinct=(40, 80),
+               counters={"keyed_exports": (300, 10000), "keyed_answers_identical": (10000, 500000), "zero_key_exports": (20, 500), "expired_shards_checked": (300, 10000), "valid_shards_checked": (300, 10000), "shards_deleted_by_clean": (100, 5000),
+                         "flags_000": (10, 100), "flags_111": (10, 100)}),
+)
+
 LEVEL_TEXT = {
     "C04": "Held on the explored (stream, partition, target) cases: the real chunker's output was compared chunk by chunk with an independent implementation of the gear-hash rule, plus bounds, concatenation, hash and locality clauses. Sampling, not proof; adversarial and boundary-biased generators make the sample hostile.",
     "C06": "Held on the explored chunk lists / byte strings: every aggregate, leaf and range hash equalled an independent blake3 construction and committed golden values; 4 mutation kinds changed the aggregate; both validators recomputed the uploader's hash.",
     "C07": "Held on the explored xorbs: every byte, range, boundary and offset returned by the reader equalled the input and an independent parser's view; sync/async/stream chunk decoders agreed; bg4 exhaustive over lengths.",
+    "C05": "Held on the explored shard contents / query sequences / manager histories: every answer was checked position by position against the ground truth of everything ever added (hash equality, range inside the xorb, byte sum). Hits, partial hits and collision-resolved hits are counted and gated so the run cannot be vacuous.",
+    "C09": "Held on the explored models: lookups, scans, totals and size accounting of the serialized shard equalled the record maps; absent keys (also with shared prefix) returned not-found; three reader families agreed; the search routine was exercised far beyond its 256-entry read window.",
+    "C10": "Held on the explored pairs and directories: outputs equalled model set operations and passed the C09 oracle; consolidation lost, invented or damaged no record and returned content-named existing files.",
+    "C18": "Held on the explored exports and expiry scenarios: keyed chunk hashes equal an independent hmac, no plain chunk hash bytes remain, dedup answers through the manager equal the original's, records kept/dropped as requested; load / clean predicates judged with a 5 s margin.",
     "C08": "Fault enumeration over serialized xorbs: each mutant is judged by an independent decoder when accepted; panics are caught, allocations counted. Exhaustive over single-byte header/footer replacements and truncation points for a subset of bases, sampled otherwise.",
 }
 
